@@ -68,6 +68,7 @@ func GenTree(r *Rng, o TreeOpts) *Tree {
 	if o.Depth == 0 {
 		o.Depth = 2
 	}
+	allFuncs := r.Chance(60)
 	base := &Gen{R: r, ObjBias: o.ObjBias, FailBias: 0, Funcs: o.Funcs, NoBig: o.NoBig, ArgClash: o.ArgClash}
 	t.Data = base.GenData()
 	dataVars := append([]gvar{}, base.vars...)
@@ -81,7 +82,7 @@ func GenTree(r *Rng, o TreeOpts) *Tree {
 	t.add("components/badge", "component", `<span class="badge">BADGE {{ label }}</span>`)
 
 	// layout
-	lg := &Gen{R: r, Prefix: "LAY", vars: append([]gvar{}, dataVars...), ObjBias: o.ObjBias, Funcs: o.Funcs, NoBig: o.NoBig}
+	lg := &Gen{R: r, Prefix: "LAY", vars: append([]gvar{}, dataVars...), ObjBias: o.ObjBias, Funcs: o.Funcs, NoBig: o.NoBig, AllFuncs: allFuncs}
 	layComp := ""
 	if o.LayoutComp {
 		layComp = "\n@component(\"~badge\", {label: \"LAYOUT\"})\n"
@@ -101,7 +102,7 @@ func GenTree(r *Rng, o TreeOpts) *Tree {
 			name = Pick(r, []string{"admin/", "blog/posts/", "a/"}) + name
 		}
 		g := &Gen{R: r, Prefix: fmt.Sprintf("PG%d", i), vars: append([]gvar{}, dataVars...), ObjBias: o.ObjBias,
-			FailBias: o.FailBias, Comps: t.Comps, WantFP: o.WantFP, Funcs: o.Funcs, NoBig: o.NoBig, ObjFail: o.ObjFail}
+			FailBias: o.FailBias, Comps: t.Comps, WantFP: o.WantFP, Funcs: o.Funcs, NoBig: o.NoBig, ObjFail: o.ObjFail, AllFuncs: allFuncs}
 		var src string
 		if r.Chance(50) {
 			// page with layout
